@@ -36,11 +36,11 @@ def parseDate (s : String) : Option Nat :=
 
 /-- `Currency::new(s).as_str()` -/
 def currencyOf (s : String) : String :=
-  if s.toUpper = "" then "CAD" else s.toUpper
+  if upper s = "" then "CAD" else upper s
 
 /-- the case-insensitive `rrsp|tfsa|resp` test on the account type -/
 def isRegistered (accountType : String) : Bool :=
-  (Gen.qtRegisteredRegex.splitOn "|").any (fun alt => hasInfix alt.toList accountType.toLower.toList)
+  (splitOnChar '|' Gen.qtRegisteredRegex.toList).any (fun alt => hasInfix alt (lower accountType).toList)
 
 /-- `symbol_aliases.get` : `(alias, aka)` -/
 def aliasOf (sym : String) : Option (String × String) :=
@@ -66,7 +66,7 @@ inductive RowAct
   | fxt (r : FxtRow)
   | income (t : BTx)
   | trade (t : BTx)
-deriving Repr
+deriving Repr, DecidableEq
 
 /-- The column names `sheet_to_txs` reads. -/
 def usedNames : List String :=
@@ -77,7 +77,7 @@ def usedNames : List String :=
     so the first failing read is the reported error). -/
 def parseRow (rd : Reader) (n : Nat) : Except ErrKind RowAct :=
   (rd.getStr "Action").bind fun actionRaw =>
-  let action := actionRaw.toUpper
+  let action := upper actionRaw
   if Gen.qtIgnoredActions.contains action then .ok .skip
   else if Gen.qtAllowedActions.contains action then
     (rd.getStr "Transaction Date").bind fun tds =>
@@ -98,7 +98,7 @@ def parseRow (rd : Reader) (n : Nat) : Except ErrKind RowAct :=
       if sym = "" then .error .emptySymbol
       else if action = "DIV" then
         (rd.getStr "Currency").bind fun cur =>
-        if cur.toUpper = "USD" then
+        if upper cur = "USD" then
           (rd.getDec "Net Amount").bind fun amt =>
           (fxTx "USD" td tds amt reg n account none ("DIV from " ++ sym)).map .income
         else .ok .skip
@@ -197,7 +197,15 @@ structure Opts where
 inductive Outcome
   | multiAccount                                   -- no --account and more than one account
   | out (txs : List BTx) (errors : List (Nat × ErrKind))
-deriving Repr
+deriving Repr, DecidableEq
+
+def Outcome.txs? : Outcome → Option (List BTx)
+  | .out txs _ => some txs
+  | .multiAccount => none
+
+def Outcome.errors? : Outcome → Option (List (Nat × ErrKind))
+  | .out _ errs => some errs
+  | .multiAccount => none
 
 def distinctAccounts (txs : List BTx) : List Account := (txs.map (·.account)).eraseDups
 
